@@ -13,7 +13,7 @@
 //!       //@loop <n> [tags=..]   loop contract of the n-th loop (pre-order)
 //!       //@closure <n>          annotated header of the n-th closure (pre-order)
 //!       //@at entry | after_let <name> [occ] | before_call <name> <occ> | after_call <name> <occ>
-//!             | before_loop <n> | after_loop <n> | loop_end <n>      ghost text placed at an anchor
+//!             | before_loop <n> | after_loop <n> | loop_end <n> | then_start <n> | then_end <n>   ghost text at an anchor
 //!   //@end
 //!
 //! Rewrites applied to the body (everything else is verbatim; see DESIGN.md 2.1):
@@ -22,6 +22,7 @@
 //!   R4 s![..e]                                           -> verif_slice_to(e)
 //!   R8 X.iter().cloned().zip(Y.into_iter()).collect()   -> verif_zip_collect(X, Y)
 //!   R9 closure header `|x|` -> annotated header from `//@closure n` (types, result name, ensures); body verbatim
+//!   R10 `for P in E` -> `for P in it: E` when the loop contract names the ghost iterator (`//@loop n iter=it`)
 //!   R7 tail expression carrying an `after_call` anchor   -> { let __r = <tail>; <ghost>; __r }
 //! Exit codes: 0 ok, 3 lost anchor / item not found, 4 usage or internal error.
 
@@ -44,6 +45,7 @@ struct Section {
     kind: String, // sig | spec | loop | at
     args: Vec<String>,
     tags: Option<String>,
+    kv: BTreeMap<String, String>,
     text: String,
 }
 
@@ -135,7 +137,7 @@ fn load_template(path: &Path, mode: &str, items: &mut Vec<TItem>) {
                 "sig" | "spec" | "loop" | "at" | "closure" => {
                     let c = cur.as_mut().unwrap_or_else(|| die(4, format!("{}:{}: stray section", pname, ln)));
                     let (pos, kv) = parse_kv(tail);
-                    c.sections.push(Section { kind: word.to_string(), args: pos, tags: kv.get("tags").cloned(), text: String::new() });
+                    c.sections.push(Section { kind: word.to_string(), args: pos, tags: kv.get("tags").cloned(), kv: kv.clone(), text: String::new() });
                 }
                 _ => die(4, format!("{}:{}: unknown directive {}", pname, ln, word)),
             }
@@ -295,6 +297,8 @@ struct StmtInfo {
 struct BodyScan {
     // loops in pre-order: (open brace offset of the body block, offset of its closing brace, stmt start, stmt end)
     loops: Vec<(usize, usize, usize, usize)>,
+    // for loops: loop ordinal -> offset of the iterated expression (to name the ghost iterator, R10)
+    for_exprs: BTreeMap<usize, usize>,
     // calls by name: (enclosing stmt)
     calls: BTreeMap<String, Vec<StmtInfo>>,
     lets: BTreeMap<String, Vec<StmtInfo>>,
@@ -303,6 +307,8 @@ struct BodyScan {
     rewrites: Vec<(usize, usize, String, String)>,
     // closures in pre-order: (header start, body start, body end, body is a block)
     closures: Vec<(usize, usize, usize, bool)>,
+    // `if` expressions in pre-order: (offset just after the then-block's open brace, offset of its closing brace)
+    ifs: Vec<(usize, usize)>,
 }
 
 struct Scanner<'a> {
@@ -435,11 +441,19 @@ impl<'a, 'ast> Visit<'ast> for Scanner<'a> {
         syn::visit::visit_expr_while(self, l);
     }
     fn visit_expr_for_loop(&mut self, l: &'ast syn::ExprForLoop) {
+        let (xs, _) = self.src.range(l.expr.span());
+        self.scan.for_exprs.insert(self.scan.loops.len(), xs);
         let (s, e) = self.src.range(l.span());
         let (bo, _) = self.src.range(l.body.brace_token.span.open());
         let (bc, _) = self.src.range(l.body.brace_token.span.close());
         self.scan.loops.push((bo, bc, s, e));
         syn::visit::visit_expr_for_loop(self, l);
+    }
+    fn visit_expr_if(&mut self, e: &'ast syn::ExprIf) {
+        let (bo, _) = self.src.range(e.then_branch.brace_token.span.open());
+        let (bc, _) = self.src.range(e.then_branch.brace_token.span.close());
+        self.scan.ifs.push((bo + 1, bc));
+        syn::visit::visit_expr_if(self, e);
     }
     fn visit_expr_closure(&mut self, c: &'ast syn::ExprClosure) {
         let (hs, _) = self.src.range(c.span());
@@ -633,6 +647,12 @@ fn main() {
                             let lp = scan.loops.get(n).unwrap_or_else(|| die(3, format!("lost-anchor: loop {} of {} not found ({} loops)", n, id, scan.loops.len())));
                             edits.push((lp.0, lp.0, seq, format!("\n{}", s.text), json!({"kind": "loop", "label": format!("loop {}", n), "fn": id, "tags": stags})));
                             seq += 1;
+                            if let Some(nm) = s.kv.get("iter") {
+                                // R10 (ghost only): name the for loop's ghost iterator: `for P in E` -> `for P in <nm>: E`
+                                let xo = scan.for_exprs.get(&n).unwrap_or_else(|| die(3, format!("lost-anchor: loop {} of {} is not a for loop", n, id)));
+                                edits.push((*xo, *xo, seq, format!("{}: ", nm), json!({"kind": "rewrite", "rule": "R10", "fn": id, "tags": body_tags})));
+                                seq += 1;
+                            }
                         }
                         "closure" => {
                             // R9: the closure header (parameters) is replaced by an annotated header
@@ -675,6 +695,17 @@ fn main() {
                                     } else {
                                         edits.push((st.end, st.end, seq, format!("\n{}", s.text), meta));
                                     }
+                                }
+                                "then_start" | "then_end" => {
+                                    let n: usize = s.args.get(1).and_then(|x| x.parse().ok()).unwrap_or_else(|| die(4, "if anchor needs ordinal".into()));
+                                    let f = scan.ifs.get(n).unwrap_or_else(|| die(3, format!("lost-anchor: if {} of {} not found", n, id)));
+                                    let at = if what == "then_start" { f.0 } else { f.1 };
+                                    edits.push((at, at, seq, format!("\n{}\n", s.text), meta));
+                                }
+                                "loop_start" => {
+                                    let n: usize = s.args.get(1).and_then(|x| x.parse().ok()).unwrap_or_else(|| die(4, "loop anchor needs ordinal".into()));
+                                    let lp = scan.loops.get(n).unwrap_or_else(|| die(3, format!("lost-anchor: loop {} of {} not found", n, id)));
+                                    edits.push((lp.0 + 1, lp.0 + 1, seq + 1000, format!("\n{}\n", s.text), meta));
                                 }
                                 "before_loop" | "after_loop" | "loop_end" => {
                                     let n: usize = s.args.get(1).and_then(|x| x.parse().ok()).unwrap_or_else(|| die(4, "loop anchor needs ordinal".into()));
